@@ -434,6 +434,24 @@ def extract(repo):
         return key
     link_create, link_drop = link_key('_getJoinsToCreate'), link_key('dropJoinTables')
 
+    def passes_flag(fname, callee, kwname):
+        """does `fname` hand its own if-exists flag on to `callee`?"""
+        fn = find_func(so_cls, fname)
+        calls = [n for n in ast.walk(fn) if isinstance(n, ast.Call) and ast.unparse(n.func) == 'cls.' + callee]
+        expect(len(calls) == 1, '%s calls %s %d times' % (fname, callee, len(calls)))
+        kws = {k.arg: ast.unparse(k.value) for k in calls[0].keywords}
+        expect(not calls[0].args and set(kws) <= {kwname, 'connection'}, '%s: arguments of %s: %s' % (fname, callee, ast.unparse(calls[0])))
+        if kwname not in kws:
+            return False
+        expect(kws[kwname] == kwname, '%s passes %s=%s' % (fname, kwname, kws[kwname]))
+        return True
+    drop_passes = passes_flag('dropTable', 'dropJoinTables', 'ifExists')
+    create_passes = passes_flag('createTable', 'createJoinTables', 'ifNotExists')
+
+    def dedupes(fname):
+        return 'join.intermediateTable in [j.intermediateTable for j in joins]' in ast.unparse(find_func(so_cls, fname))
+    create_dedupes, drop_dedupes = dedupes('_getJoinsToCreate'), dedupes('dropJoinTables')
+
     def pair(a, b):
         return '(%s, %s)' % (L(a), L(b))
 
@@ -463,6 +481,12 @@ def extract(repo):
     out.append('/-- what `_getJoinsToCreate` / `dropJoinTables` compare to pick the side that owns a link table -/')
     out.append('def linkCreateKey : LinkKey := %s' % link_create)
     out.append('def linkDropKey : LinkKey := %s' % link_drop)
+    out.append('/-- `dropTable(ifExists)` hands `ifExists` on to `dropJoinTables`; `createTable(ifNotExists)` to `createJoinTables` -/')
+    out.append('def dropPassesIfExists : Bool := %s' % ('true' if drop_passes else 'false'))
+    out.append('def createPassesIfNotExists : Bool := %s' % ('true' if create_passes else 'false'))
+    out.append('/-- a link table listed twice by one class (self-referential join, both directions) is handled once -/')
+    out.append('def createDedupes : Bool := %s' % ('true' if create_dedupes else 'false'))
+    out.append('def dropDedupes : Bool := %s' % ('true' if drop_dedupes else 'false'))
     out.append('')
     out.append('/-- which `sqlrepr` dialect renders the values of an EnumCol -/')
     out.append('def enumLit : Dialect → LitDb')
